@@ -553,16 +553,33 @@ def rule_args(ctx):
               bad_detail='ParserOptions.range is built as %s' % (re.findall(r'range: .*', agg[0])[0][:200] if agg else '?'))
     bn = prog.one('BlockHeightRange::new')
     ctx.touch(bn)
-    rets = sorted((canon(bn.rvalue_expr(d[3])), tuple(util.guards_at(bn, d[1]))) for d in bn.defs().get(0, []) if d[0] == 'assign')
+    rets = sorted((canon(bn.rvalue_expr(d[3])), tuple(util.guards_at(bn, d[1]))) for d in bn.ret_defs() if d[0] == 'assign')
     okn = ('Result::Ok{0: BlockHeightRange::BlockHeightRange{start: a1, end: a2}}', ()) in rets
     ctx.check('args', 'range-ctor-stores-both-bounds', okn, bn, 'BlockHeightRange::new = %s' % [r[0] for r in rets])
     err = [r for r in rets if r[0].startswith('Result::Err')]
-    ctx.check('args', 'rejects-only-start>=end', len(err) == 1 and err[0][1] == ('is_some(a2)', 'unwrap(a2) <= a1'), bn,
+    ctx.check('args', 'rejects-only-start>=end', len(err) == 1 and err[0][1] == ('a2 is Some', 'a2? <= a1'), bn,
               'Err only when end is given and end <= start (%s)' % ([e[1] for e in err]))
     dflt = prog.one('BlockHeightRange::is_default')
-    ctx.check('args', 'default-range', canon(dflt.ret_expr()) == 'phi(false | is_none(self.end))', dflt, 'is_default = start == 0 && end.is_none()')
-    g = [(canon(dflt.rvalue_expr(d[3])) if d[0] == 'assign' else canon(dflt.call_expr(d[2])), util.guards_at(dflt, d[1])) for d in dflt.defs().get(0, [])]
-    ctx.check('args', 'default-range-guards', sorted(g) == sorted([('false', ['0 < self.start']), ('is_none(self.end)', ['self.start <= 0'])]), dflt, '%s' % g)
+    # is_default() is true exactly for (start == 0, end == None): every path returning true carries both tests, every
+    # path returning false carries the negation of one of them (paths = incoming edges where the value is set)
+    outs = []
+    for d in dflt.ret_defs():
+        v = canon(dflt.rvalue_expr(d[3])) if d[0] == 'assign' else canon(dflt.call_expr(d[2]))
+        for g in util.path_guard_sets(dflt, d[1]):
+            if v == 'is_none(self.end)':
+                outs.append(('true', sorted(g + ['self.end is None'])))
+                outs.append(('false', sorted(g + ['self.end is Some'])))
+            elif v == 'is_some(self.end)':
+                outs.append(('false', sorted(g + ['self.end is None'])))
+                outs.append(('true', sorted(g + ['self.end is Some'])))
+            else:
+                outs.append((v, sorted(g)))
+    t_ok = [o for o in outs if o[0] == 'true']
+    f_ok = [o for o in outs if o[0] == 'false']
+    ctx.check('args', 'default-range', bool(t_ok) and all('self.start <= 0' in g and 'self.end is None' in g for _, g in t_ok) and len(t_ok) + len(f_ok) == len(outs), dflt,
+              'is_default is true only for start == 0 && end.is_none(): %s' % t_ok)
+    ctx.check('args', 'default-range-guards', bool(f_ok) and all('0 < self.start' in g or 'self.end is Some' in g for _, g in f_ok), dflt,
+              'is_default is false only when start > 0 or an end is given: %s' % f_ok)
     wr = [(b.path, ch) for b in prog.bodies.values() for bb, idx, pl, rv, st in b.stores()
           for el in pl['p'] if el['k'] == 'field' and (el.get('of') or '').endswith('BlockHeightRange')]
     ctx.check('args', 'range-immutable', not wr, None, 'stores to BlockHeightRange fields: %s' % wr)
